@@ -350,6 +350,17 @@ class Heap:
         """Interpret the barrier call of a sanctioned adoption path on state st. Returns outcomes."""
         cx = self.m.ctx_ref()
         if path == "root_barrier":
+            # the public entry point: Arena::mutate_root with an opaque callback (which stores the pointer, and in the
+            # fault exploration may panic after having stored it - the arena is only borrowed and survives the panic)
+            if "arena::Arena::mutate_root" in self.prog.seed_n:
+                st.mem[("arena",)] = adt("arena::Arena", 0, (cx, ("sym", "root")))
+                ip = self.m.ip
+                old_l = ip.lenient_std
+                ip.lenient_std = True
+                try:
+                    return self.run(g, "arena::Arena::mutate_root", [ref(("arena",), ()), adt("closure:<user>", 0, ())], st)
+                finally:
+                    ip.lenient_std = old_l
             return self.run(g, "context::Context::root_barrier", [cx], st)
         if path == "stash":
             # the set object is h; the slot table itself is C14's business (slot tables, handle pairing): here the
@@ -391,6 +402,10 @@ class Heap:
             return self.run(g, "context::Mutation::forward_barrier", [cx, none(), gc(c)], st)
         return self.run(g, "context::Mutation::forward_barrier_weak", [cx, none(), gcw(c)], st)
 
+    @staticmethod
+    def callback_panicked(o):
+        return o.kind == "unwind" and any(e[0] == "panic" and e[1] == "callback" for e in o.ev)
+
     def apply_mutator(self, g, kind, params):
         """Returns list of (g2, violations)."""
         res = []
@@ -409,10 +424,11 @@ class Heap:
             h, c, k, path = params
             for o in self.barrier(g, self.to_state(g), h, c, k, path):
                 g2, v = self.from_outcome(g, o, where="mutator")
-                if o.kind != "return":
+                if o.kind != "return" and not self.callback_panicked(o):
                     v.append(("PANIC-mutator", "a write barrier does not return normally (%s)" % o.kind))
                     res.append((g2, v))
                     continue
+                # (a callback that panics may have stored the pointer first)
                 res.append((g2._replace(edges=g2.edges | {(h, c, k)}), v))
             return res
         if kind == "alloc":
@@ -430,6 +446,10 @@ class Heap:
                     continue
                 for o2 in self.barrier(g2, self.to_state(g2), h, n, "s", path):
                     g3, v2 = self.from_outcome(g2, o2, where="mutator")
+                    if o2.kind != "return" and not self.callback_panicked(o2):
+                        v2.append(("PANIC-mutator", "a write barrier does not return normally (%s)" % o2.kind))
+                        res.append((g3, v + v2))
+                        continue
                     res.append((g3._replace(edges=g3.edges | {(h, n, "s")}), v + v2))
             return res
         if kind == "upgrade":
@@ -584,7 +604,10 @@ class Heap:
                     succ.append((lab2, g2, v + self.check_state(g2)))
             for (lab, kind, params) in self.mutator_ops(g):
                 for (g2, v) in self.apply_mutator(g, kind, params):
-                    succ.append((lab, g2, v + self.check_state(g2)))
+                    if g2.panics > self.max_panics:
+                        continue
+                    lab2 = lab + (" [the callback panics after the store; the panic is caught]" if g2.panics > g.panics else "")
+                    succ.append((lab2, g2, v + self.check_state(g2)))
         errs, self.errors = self.errors, []
         runs, self.runs = self.runs, 0
         return own, orc, succ, runs, errs
